@@ -24,6 +24,12 @@ func src(fset *token.FileSet, n ast.Node) string {
 	return strings.Join(strings.Fields(b.String()), " ")
 }
 
+// srcNoComments prints a node without the comments inside it (the printer drops free-floating comments when it is given a
+// bare node rather than a file)
+func srcNoComments(fset *token.FileSet, n ast.Node) string {
+	return src(fset, n)
+}
+
 func findFunc(f *ast.File, name string) *ast.FuncDecl {
 	for _, d := range f.Decls {
 		if fd, ok := d.(*ast.FuncDecl); ok && fd.Name.Name == name && fd.Recv == nil {
@@ -132,12 +138,27 @@ func binOpEq(fset *token.FileSet, e ast.Expr) (string, error) {
 }
 
 var knownClasses = []struct{ cond, cls string }{
-	{"!pass.IsNil(x) && pass.IsNil(y)", "ClsNil"},
+	{"!pass.IsNil(x) && isNilComparand(pass, x, y)", "ClsNil"},
 	{"lenArgs := extractLenArgs(x, false); len(lenArgs) == 1 && pass.IsZero(y)", "ClsLenZero"},
 	{"xLenArgs, yLenArgs := extractLenArgs(x, true), extractLenArgs(y, true); len(xLenArgs) != 0 && len(yLenArgs) != 0", "ClsLenLen"},
 	{"lenArgs := extractLenArgs(x, true); len(lenArgs) == 1 && likelyPositiveInt(pass, y)", "ClsLenPos"},
 	{"lenArgs := extractLenArgs(x, true); len(lenArgs) == 1 && (pass.IsZero(y) || likelyPositiveInt(pass, y))", "ClsLenNonneg"},
 	{"arg, ok := lenMinusPositiveArg(pass, x); ok && pass.IsZero(y)", "ClsLenMinus"},
+}
+
+// the one matcher that is not "condition => fixed effects": a comparison of a check with a boolean constant, whose
+// effects are those of the check itself (a recursive call), exchanged when the constant is false
+const boolConstMatcher = "func(x, y ast.Expr) (RootFunc, RootFunc, bool) { if value, ok := boolConstant(pass, y); ok { trueNilCheck, falseNilCheck, isNoop := AddNilCheck(pass, x) if !value { trueNilCheck, falseNilCheck = falseNilCheck, trueNilCheck } return trueNilCheck, falseNilCheck, isNoop } return noop, noop, true }"
+
+// the prologue of AddNilCheck that the expression layer of the model (Cmp.check) transcribes: parentheses are
+// dropped, a negation exchanges the two effects of its operand
+const notPrologue = "if e, ok := expr.(*ast.UnaryExpr); ok && e.Op == token.NOT { trueNilCheck, falseNilCheck, isNoop := AddNilCheck(pass, e.X) return falseNilCheck, trueNilCheck, isNoop }"
+
+// helper predicates the classes stand for: what an operand kind of the model means is fixed by their bodies, so a
+// change of one of them is a change of shape (the proof obligation breaks and the check searches for a witness)
+var pinnedHelpers = map[string]string{
+	"isNilComparand": "{ if pass.IsNil(y) { return true } call, ok := ast.Unparen(y).(*ast.CallExpr) if !ok || len(call.Args) != 1 || !pass.IsNil(call.Args[0]) { return false } if tv, ok := pass.TypesInfo.Types[call.Fun]; !ok || !tv.IsType() { return false } xType, yType := pass.TypesInfo.TypeOf(x), pass.TypesInfo.TypeOf(call) return xType != nil && yType != nil && types.Identical(xType, yType) }",
+	"boolConstant":   "{ if tv, ok := pass.TypesInfo.Types[expr]; ok { if tv.Value != nil && tv.Value.Kind() == constant.Bool { return constant.BoolVal(tv.Value), true } return false, false } if asthelper.IsLiteral(expr, \"true\", \"false\") { return asthelper.IsLiteral(expr, \"true\"), true } return false, false }",
 }
 
 func stripComments(s string) string {
@@ -230,6 +251,10 @@ func genTables() error {
 					fl, ok := kv.Value.(*ast.FuncLit)
 					if !ok || len(fl.Body.List) < 2 {
 						shapeOK = false
+						continue
+					}
+					if stripComments(srcNoComments(fset, fl)) == boolConstMatcher {
+						cls = "ClsBoolConst"
 						continue
 					}
 					nst := len(fl.Body.List)
@@ -355,6 +380,22 @@ func genTables() error {
 		}
 	}
 	b.WriteString("].\n\n")
+
+	// --- the prologue: `expr = ast.Unparen(expr)` followed by the negation case
+	notSwaps := false
+	if len(fd.Body.List) >= 3 {
+		if src(fset, fd.Body.List[1]) == "expr = ast.Unparen(expr)" && stripComments(srcNoComments(fset, fd.Body.List[2])) == notPrologue {
+			notSwaps = true
+		}
+	}
+	fmt.Fprintf(&b, "(* AddNilCheck drops parentheses and exchanges the effects of a negated operand *)\nDefinition not_swaps_gen : bool := %v.\n\n", notSwaps)
+	for name, want := range pinnedHelpers {
+		h := findFunc(ut, name)
+		if h == nil || stripComments(srcNoComments(fset, h.Body)) != want {
+			shapeOK = false
+			fmt.Fprintf(&b, "(* translator: the body of %s is not the one the operand kinds of the model stand for *)\n", name)
+		}
+	}
 	fmt.Fprintf(&b, "(* true iff every construct above had exactly the shape the translator understands *)\nDefinition tables_shape_ok : bool := %v.\n", shapeOK)
 	return writeIfChanged(filepath.Join(*out, "Tables.v"), []byte(b.String()))
 }
